@@ -188,7 +188,7 @@ class CovarianceE(Entry):
     family = "moments"
     has_functional = False
     min_compute = 2
-    alias_on_merge = True        # merge_state adopts the source's tensors by reference (C11)
+    alias_on_merge = True        # adopts the first shard's state: probed for tensor sharing (was D2)
 
     def configs(self, rng, quick=True):
         return [{"_d": d} for d in (2, 1, 3)]
